@@ -77,6 +77,8 @@ mod shared;
 mod state;
 pub mod subscriber;
 mod unique;
+#[cfg(eyeball_verif)]
+pub mod verif;
 
 #[cfg(feature = "async-lock")]
 #[doc(inline)]
